@@ -151,6 +151,7 @@ func (ctx *Context) RunAfterParsed() error {
 		return ctx.Error
 	}
 	ctx.IsComputedLoaded = false
+	ctx.detailCache = "" // 重新执行会得到新的骰点结果，上一次执行缓存的计算过程不再适用
 	// 以下为eval
 	ctx.evaluate()
 	if ctx.Error != nil {
